@@ -121,21 +121,48 @@ func (ul *Upstreams) openStream(subProtocol string) (streams.ReadWriteCloserClos
 // it will be reused -- only one physical connection will be opened against the server, no matter how many logical
 // connections you start.
 func (ul *Upstreams) Connect(config cert.ConfigGetter, subProtocol string) (streams.ReadWriteCloserClosed, error) {
-	var err error
-
-	ul.mutex.Lock()
-	if ul.connection == nil || ul.connection.Closed() {
-		ul.connection = nil
-		ul.session = nil
-		err = ul.open(config.CertManager())
-	}
-	ul.mutex.Unlock()
-
+	session, err := ul.currentSession(config, nil)
 	if err != nil {
 		return nil, err
 	}
 
-	return ul.openStream(subProtocol)
+	stream, err := ul.openStream(subProtocol)
+	if err != nil && errors.Cause(err) != ms.ErrNotSupported {
+		// The physical session may have been lost without our end having been closed (carrier cut, server
+		// restarted): the multiplexer only notices on its next keep-alive. Replace the session this attempt
+		// failed on -- unless somebody else already did -- and try once more.
+		log.WithError(err).Debugf("Could not open a stream, re-establishing the upstream session: %v", err)
+		if _, err = ul.currentSession(config, session); err != nil {
+			return nil, err
+		}
+		stream, err = ul.openStream(subProtocol)
+	}
+	return stream, err
+}
+
+// currentSession returns the session shared by all logical connections, establishing it when there is none,
+// when it has been closed, or when it still is the given broken one.
+func (ul *Upstreams) currentSession(config cert.ConfigGetter, broken *smux.Session) (*smux.Session, error) {
+	var err error
+
+	ul.mutex.Lock()
+	defer ul.mutex.Unlock()
+
+	if broken != nil && ul.session == broken {
+		if !ul.session.IsClosed() {
+			_ = ul.session.Close()
+		}
+		if ul.connection != nil && !ul.connection.Closed() {
+			streams.TryClose(ul.connection)
+		}
+		ul.connection = nil
+	}
+	if ul.connection == nil || ul.connection.Closed() || ul.session == nil || ul.session.IsClosed() {
+		ul.connection = nil
+		ul.session = nil
+		err = ul.open(config.CertManager())
+	}
+	return ul.session, err
 }
 
 // Shutdown will close the connection to the connected upstream server
